@@ -73,7 +73,7 @@ STAGES = {
     "C02": [S("lag", "^TestC02Lag$"),
             S("close-queued", "^TestC02CloseQueued$"),
             S("programs", "^TestC02$", quick=1500, thorough=200000, shards=(4, 16))],
-    "C03": [S("regress", "^TestC03Regress$|^TestC03Flood$"),
+    "C03": [S("regress", "^TestC03Regress$|^TestC03Flood$|^TestC03ForeignWindow$"),
             S("structured", "^TestC03$", quick=1500, thorough=10000, shards=(4, 16)),
             S("raw", "^TestC03Raw$", quick=8000, thorough=60000, shards=(4, 16)),
             S("fuzz", "^$", tiers=("thorough",), shards=(1, 1), fuzz={"target": "^FuzzC03$", "time": {"quick": "10s", "thorough": "180s"}}, timeout=("10m", "30m"))],
